@@ -1619,3 +1619,12 @@ package objects
 //@   ensures[acls] err == nil ==> ncalls(security.NewACL) == 2 && sq.isManaged
 //@   ensures[shape] err == nil ==> sq.isLeaf == (!conf.Parent && len(conf.Queues) == 0) && sq.properties == conf.Properties
 //@   ensures[maxapps] err == nil && sq.Name != "root" ==> sq.maxRunningApps == conf.MaxApplications
+
+// the root maximum is replaced by a private copy of the value handed in (the partition total): every type the total
+// defines gets exactly that value, an unusable total clears the maximum, and a non-root queue is never touched
+//@ func (sq *Queue) SetMaxResource(max *resources.Resource)
+//@   props C02
+//@   mode nopanic=off
+//@   ensures[rootset] sq.parent == nil && ((forall t Key :: rv(max, t) >= 0) && (exists t Key :: rv(max, t) > 0)) ==> sq.maxResource != nil && sq.maxResource != max && (forall t Key :: has(sq.maxResource, t) == has(max, t) && rv(sq.maxResource, t) == rv(max, t))
+//@   ensures[rootcleared] sq.parent == nil && !((forall t Key :: rv(max, t) >= 0) && (exists t Key :: rv(max, t) > 0)) ==> sq.maxResource == nil
+//@   ensures[nonroot] sq.parent != nil ==> sq.maxResource == old(sq.maxResource)
